@@ -92,6 +92,16 @@ pub fn source(case: &str) -> String {
       arms.push(format!("| {}{} => {}", p, g, b));
     }
     format!("{}res := src? {}.\nres", src, arms.join(" "))
+  } else if f[0] == "fnt" {
+    // a function of one tuple parameter: `fz(a<(u64,bool)>) => <u64>` with tuple patterns, called with a tuple
+    let kinds = f[1];
+    let arms: Vec<String> = f[3].split(";;").map(|a| { let mut t = Toks::new(a); let p = p_src(&mut t); let b = e_src(&mut t, "fz"); format!("{} => {}", p, b) }).collect();
+    let mut src = format!("fz(a<({})>) => <u64>\n", kinds);
+    for (i, a) in arms.iter().enumerate() { src.push_str(&format!("  {} {}{}\n", if i + 1 == arms.len() { "└" } else { "├" }, a, if i + 1 == arms.len() { "." } else { "" })); }
+    let mut vt = Toks::new(f[2]);
+    let v = v_src(&mut vt);
+    let form = f.last().and_then(|t| t.strip_prefix("form=")).unwrap_or("lit");
+    if form == "var" || form == "mut" { format!("{}{}p0 := {}\nfz(p0)", src, if form == "mut" { "~" } else { "" }, v) } else { format!("{}fz({})", src, v) }
   } else {
     let arity: usize = f[1].parse().unwrap(); let kind = f[2];
     let params = ["a", "b"][..arity].iter().map(|n| format!("{}<{}>", n, kind)).collect::<Vec<_>>().join(", ");
@@ -227,6 +237,29 @@ pub fn generate(seed: u64, thorough: bool, sink: &mut Sink) -> Vec<String> {
     };
     sink.hit(&format!("fn:{}", how));
     cases.push(format!("fn\t{}\t{}\t{}\t{}\t{}", arity, kind, arms.join(";;"), howf, args.join(",")));
+  }
+  // ---- functions of one tuple parameter: tuple patterns whose elements are literals of the element's kind (numbers,
+  // booleans, strings), variables or wildcards, in every order; the argument in place or through a variable
+  for it in 0..n / 4 {
+    let width = 2 + (it % 2);
+    let ekinds: Vec<&str> = (0..width).map(|j| if j == 0 { "u64" } else { *rng.pick(&["bool", "bool", "string", "u64"]) }).collect();
+    let elem = |rng: &mut Rng, k: &str| -> String { match k { "bool" => format!("b:{}", rng.chance(1, 2)), "string" => format!("s:{}", hexs(*rng.pick(&["a", "b"]))), _ => nu(rng.range(0, 3)) } };
+    let arg = format!("tup {} {}", width, ekinds.iter().map(|k| elem(&mut rng, k)).collect::<Vec<_>>().join(" "));
+    let narms = 1 + rng.below(4) as usize;
+    let mut arms: Vec<String> = vec![];
+    for ai in 0..narms {
+      let mut nums: Vec<String> = vec![];
+      let pool = ["p", "q", "r"];
+      let pat: String = if ai + 1 == narms && rng.chance(1, 3) { "sp _".to_string() } else {
+        let els: Vec<String> = ekinds.iter().enumerate().map(|(j, k)| match rng.below(4) {
+          0 => "_".to_string(),
+          1 | 2 => elem(&mut rng, k),
+          _ => { if *k == "u64" { nums.push(pool[j].to_string()); } format!("${}", pool[j]) } }).collect();
+        format!("tup {} {}", width, els.join(" ")) };
+      arms.push(format!("{} {}", pat, gen_body(&mut rng, &nums, "u64")));
+    }
+    sink.hit("fn:tuple-parameter");
+    cases.push(format!("fnt\t{}\t{}\t{}", ekinds.join(","), arg, arms.join(";;")));
   }
   // ---- recursive definitions over their domain (canonical and reversed arm order)
   let one = nu(1); let zero = nu(0);
